@@ -55,6 +55,7 @@ type chaosNode struct {
 	MetaGen   int
 	Restarts  int
 	Old       []*SimNode
+	Replaced  bool // its address was taken over by a differently named node
 }
 
 func (cn *chaosNode) Live() bool { return !cn.Crashed && !cn.Left && !cn.Leaving }
@@ -202,6 +203,34 @@ func (ch *Chaos) apply(a faultAction) {
 		cn.Node = nd
 		cn.Crashed = false
 		// join through any live peer (several, in case some are unreachable)
+		var targets []string
+		for _, o := range ch.Nodes {
+			if o != cn && o.Live() {
+				targets = append(targets, o.Node.EP.Addr)
+			}
+		}
+		ch.wg.Add(1)
+		go func() {
+			defer ch.wg.Done()
+			_, _ = nd.ML().Join(targets)
+		}()
+	case "replace":
+		// a different node (new name) comes up on the crashed node's address
+		old := ch.Nodes[a.A]
+		if !old.Crashed || old.Replaced {
+			return
+		}
+		old.Replaced = true
+		cn := &chaosNode{Idx: len(ch.Nodes), Name: old.Name + "x", IP: old.IP}
+		nd, err := ch.C.Add(ch.spec(cn))
+		if err != nil {
+			ch.C.sink.add(cn.Name, "harness/replace", "replace failed: %v", err)
+			return
+		}
+		cn.Node = nd
+		ch.mu.Lock()
+		ch.Nodes = append(ch.Nodes, cn)
+		ch.mu.Unlock()
 		var targets []string
 		for _, o := range ch.Nodes {
 			if o != cn && o.Live() {
